@@ -336,6 +336,7 @@ func checkSeekTables(p *Program, r *Report) {
 	}
 	guarded(r, []string{"DESCEND-DECREASES"}, func() { checkDescendDecreases(p, r) })
 	guarded(r, []string{"SEEK-NO-SHORTCUT"}, func() { checkSeekNoShortcut(p, r) })
+	guarded(r, []string{"SEEK-KEY-INTACT"}, func() { checkSeekKeyIntact(p, r) })
 }
 
 // READ-WIDTH: the table reader tells padded from unpadded blocks by looking at
@@ -665,4 +666,181 @@ func checkSeekNoShortcut(p *Program, r *Report) {
 		}
 	}
 	r.floor("SEEK-NO-SHORTCUT", n, 1, "paths of the Reader's record seek answering with the never-yielding iterator before reading")
+}
+
+// SEEK-KEY-INTACT (C02, C03): the record that says what is sought is an input.
+// A merged seek hands the same record to every table in turn, so a table whose
+// seek writes into it (decodes a peeked key into it, say) makes the newer
+// tables seek something else.  Effects rule over the resolved call graph: the
+// record parameter of a table's seek method is never the receiver of a record
+// method that stores into its receiver, and is never passed on to a parameter
+// for which that holds (interface calls resolved to every implementation).
+func checkSeekKeyIntact(p *Program, r *Report) {
+	cg := buildCallGraph(p)
+	_ = cg
+	// record methods that write their receiver
+	writesRecv := map[*ssa.Function]bool{}
+	for _, f := range p.Funcs {
+		if f.Signature.Recv() == nil || len(f.Params) == 0 || f.Parent() != nil {
+			continue
+		}
+		recv := f.Params[0]
+		for _, b := range f.Blocks {
+			for _, ins := range b.Instrs {
+				sto, ok := ins.(*ssa.Store)
+				if !ok {
+					continue
+				}
+				a := sto.Addr
+				for {
+					if fa, ok := a.(*ssa.FieldAddr); ok {
+						a = fa.X
+						continue
+					}
+					break
+				}
+				if a == ssa.Value(recv) {
+					writesRecv[f] = true
+				}
+			}
+		}
+	}
+	implsOf := func(c *ssa.CallCommon) []*ssa.Function {
+		if !c.IsInvoke() {
+			if g := c.StaticCallee(); g != nil {
+				return []*ssa.Function{g}
+			}
+			return nil
+		}
+		iface, ok := c.Value.Type().Underlying().(*types.Interface)
+		if !ok {
+			return nil
+		}
+		var res []*ssa.Function
+		for _, f := range p.Funcs {
+			if f.Signature.Recv() == nil || f.Name() != c.Method.Name() || f.Parent() != nil {
+				continue
+			}
+			if types.Implements(f.Signature.Recv().Type(), iface) {
+				res = append(res, f)
+			}
+		}
+		return res
+	}
+	// W: (function, parameter index) through which the function may write the record
+	type fp struct {
+		f *ssa.Function
+		i int
+	}
+	W := map[fp]bool{}
+	for f := range writesRecv {
+		W[fp{f, 0}] = true
+	}
+	flowsFrom := func(v ssa.Value, pa *ssa.Parameter) bool {
+		seen := map[ssa.Value]bool{}
+		var rec func(v ssa.Value) bool
+		rec = func(v ssa.Value) bool {
+			if v == ssa.Value(pa) {
+				return true
+			}
+			if seen[v] {
+				return false
+			}
+			seen[v] = true
+			switch x := v.(type) {
+			case *ssa.ChangeInterface:
+				return rec(x.X)
+			case *ssa.MakeInterface:
+				return rec(x.X)
+			case *ssa.ChangeType:
+				return rec(x.X)
+			case *ssa.TypeAssert:
+				return rec(x.X)
+			case *ssa.Phi:
+				for _, e := range x.Edges {
+					if rec(e) {
+						return true
+					}
+				}
+			}
+			return false
+		}
+		return rec(v)
+	}
+	for changed := true; changed; {
+		changed = false
+		for _, f := range p.Funcs {
+			for pi, pa := range f.Params {
+				if W[fp{f, pi}] {
+					continue
+				}
+				hit := false
+				for _, b := range f.Blocks {
+					for _, ins := range b.Instrs {
+						ci, ok := ins.(ssa.CallInstruction)
+						if !ok {
+							continue
+						}
+						c := ci.Common()
+						impls := implsOf(c)
+						if c.IsInvoke() {
+							if flowsFrom(c.Value, pa) {
+								for _, g := range impls {
+									if W[fp{g, 0}] {
+										hit = true
+									}
+								}
+							}
+							for ai, a := range c.Args {
+								if flowsFrom(a, pa) {
+									for _, g := range impls {
+										if W[fp{g, ai + 1}] {
+											hit = true
+										}
+									}
+								}
+							}
+						} else {
+							for ai, a := range c.Args {
+								if flowsFrom(a, pa) {
+									for _, g := range impls {
+										if W[fp{g, ai}] {
+											hit = true
+										}
+									}
+								}
+							}
+						}
+					}
+				}
+				if hit {
+					W[fp{f, pi}] = true
+					changed = true
+				}
+			}
+		}
+	}
+	// the seek methods of tables: methods named like the Table interface's
+	// record-seek method (one parameter of the record interface type)
+	n := 0
+	for _, f := range p.Funcs {
+		sig := f.Signature
+		if f.Parent() != nil || sig.Recv() == nil || sig.Params().Len() != 1 || sig.Results().Len() != 2 {
+			continue
+		}
+		if _, ok := sig.Params().At(0).Type().Underlying().(*types.Interface); !ok {
+			continue
+		}
+		if _, ok := sig.Results().At(0).Type().Underlying().(*types.Interface); !ok || types.TypeString(sig.Results().At(1).Type(), nil) != "error" {
+			continue
+		}
+		n++
+		key := funcKey(f) + " / the record sought is not written"
+		if W[fp{f, 1}] {
+			r.violate("SEEK-KEY-INTACT", key, p.pos(f.Pos()), "a table's seek can write into the record that says what is sought (it reaches a record method that stores into its receiver, such as decode, with that record): a merged seek hands the same record to the next table, which then seeks another key", nil)
+		} else {
+			r.ok("SEEK-KEY-INTACT", key, "the sought record reaches no method that stores into its receiver")
+		}
+	}
+	r.floor("SEEK-KEY-INTACT", n, 2, "record-seek methods of tables")
 }
